@@ -417,13 +417,14 @@ def run(ctx):
     if not ok:
         ctx.log(out[-3000:])
         ctx.violation("proof", {"theorems": [o for o in ctx.obligations if not o[1]], "log": out[-2000:]}, "C27 proofs do not check", no_input=True)
+    ctx.log('proofs checked: %s' % ok)
     try:
         facts()
     except Exception as e:
         ctx.violation("tgen", {"error": str(e)}, "C27.tgen: cannot regenerate facts from source: %s" % e, no_input=True)
         return
     rng = ctx.rng
-    n_num, n_coll = (4, 3) if ctx.quick else (40, 24)
+    n_num, n_coll = (5, 3) if ctx.quick else (40, 24)
     per_num, per_coll = (220, 120) if ctx.quick else (250, 150)
     maxlen = 30 if ctx.quick else 60
     base = os.path.join(ctx.work, "pkgs")
@@ -447,6 +448,7 @@ def run(ctx):
     dirs = [p[0] for p in pkgs]
     for i in range(0, len(dirs), 32):
         res.update(sway.run_pkgs(dirs[i:i + 32]))
+    ctx.log('ran %d packages' % len(dirs))
     items, meta = [], []
     stats = {}
     for d, kind, cases in pkgs:
@@ -500,6 +502,7 @@ def run(ctx):
                 else:
                     ctx.violation("corr_%s_%s" % (opn, tname), dict(rep, correspondence="C27.corr/" + opn),
                                   "model and fuel-vm execution differ (%s); reference accepts the implementation" % label, no_input=True)
+    ctx.log('judged %d cases: %s' % (len(meta), hist))
     nontrivial = set()
     for d, tname, kind, case, state, logs in meta:
         if kind == "num":
